@@ -422,6 +422,11 @@ def _contour_group(case, ctx, n, rng, judge, control):
         judge([Fault("non-2d-model-for-2d-contour", 0, "ds")], lambda: DirectSamplingContour(gm, 0.05, sample=smp), c2)
         judge([Fault("non-2d-model-for-2d-contour", 0, "and")], lambda: AndContour(gm, 0.05, sample=smp), c2)
         judge([Fault("non-2d-model-for-2d-contour", 0, "or")], lambda: OrContour(gm, 0.05, sample=smp), c2)
+        # ... also when the supplied sample happens to have two columns, and when no sample is supplied
+        for nm, cls_ in (("ds", DirectSamplingContour), ("and", AndContour), ("or", OrContour)):
+            judge([Fault("non-2d-model-for-2d-contour", 0, nm + "/2-column-sample")], lambda cls_=cls_: cls_(gm, 0.05, sample=smp2), c2)
+            judge([Fault("non-2d-model-for-2d-contour", 0, nm + "/2-column-list")], lambda cls_=cls_: cls_(gm, 0.05, sample=smp2.tolist()), c2)
+            judge([Fault("non-2d-model-for-2d-contour", 0, nm + "/no-sample")], lambda cls_=cls_: cls_(gm, 0.05, n=300), c2)
     c_if = control(lambda: IFORMContour(gm, 0.05, n_points=8))
     for bad in ("string", {"model": 1}, gm.distributions[0], None, 3):
         judge([Fault("iform-wrong-model-type", 0, type(bad).__name__)], lambda bad=bad: IFORMContour(bad, 0.05, n_points=8), c_if)
